@@ -526,7 +526,7 @@ func c10Inputs(l *Lab, cfg c10Cfg, rnd *rand.Rand) []c10Input {
 		add("legacy-ordering", name, f)
 	}
 	// ---- connections dropped while the host is still sending
-	for _, how := range []string{"close-out", "rst-out", "fin-in", "rst-in", "rst-ws", "fin-ws"} {
+	for _, how := range []string{"close-out", "rst-out", "fin-in", "rst-in", "rst-ws", "fin-ws", "keepalive-flood-ws", "keepalive-flood-legacy"} {
 		for rep := 0; rep < 3; rep++ {
 			how := how
 			add("teardown-under-traffic", how, func(w *c10World, rec *c10Rec) {
@@ -586,6 +586,18 @@ func c10Inputs(l *Lab, cfg c10Cfg, rnd *rand.Rand) []c10Input {
 					t.CloseOut(false)
 				case "rst-out":
 					t.CloseOut(true)
+				case "keepalive-flood-ws", "keepalive-flood-legacy":
+					// keep-alive packets (and some data) from the client while the host floods
+					for i := 0; i < 400; i++ {
+						if t.Send(Keepalive()) != nil {
+							break
+						}
+						if i%25 == 7 {
+							t.Send(Data(GenStream(uint64(i), 300)))
+						}
+					}
+					t.WaitDataBytes(200000, time.Second)
+					t.CloseWrite()
 				case "fin-in", "fin-ws":
 					t.CloseWrite()
 				default:
@@ -657,6 +669,12 @@ func c10Inputs(l *Lab, cfg c10Cfg, rnd *rand.Rand) []c10Input {
 		[]byte("OPTIONS * HTTP/1.1\r\nHost: x\r\n\r\n"),
 		[]byte("\x16\x03\x01\x02\x00\x01\x00\x01\xfc\x03\x03" + strings.Repeat("\x00", 100)),
 		[]byte("PRI * HTTP/2.0\r\n\r\nSM\r\n\r\n"),
+	}
+	// forwarding headers with hostile values on every kind of endpoint
+	for _, v := range []string{"[", "[2001:db8::1", "10.0.0.1, [", "]", "[]", "[]:", ":", ":::::::::", "[::1]:", "[::1]:99999", "1.2.3.4:", ",", " , ,", "\x00", strings.Repeat("1.2.3.4,", 3000), "for=\"[\"", "%"} {
+		for _, path := range []string{"/remoteDesktopGateway/", "/connect", "/metrics", "/tokeninfo?access_token=x", "/KdcProxy"} {
+			rawHTTP = append(rawHTTP, []byte("GET "+path+" HTTP/1.1\r\nHost: x\r\nX-Forwarded-For: "+v+"\r\nX-Real-Ip: "+v+"\r\nForwarded: "+v+"\r\nX-Forwarded-Proto: "+v+"\r\nX-Forwarded-Host: "+v+"\r\n\r\n"))
+		}
 	}
 	for i, r := range rawHTTP {
 		i, r := i, r
